@@ -109,6 +109,11 @@ impl crate::axecutor::Axecutor {
         self.state.memory.iter().map(|a| a.verif_view()).collect()
     }
 
+    /// `(start, length)` of every area, in list order.
+    pub fn verif_area_lengths(&self) -> Vec<(u64, u64)> {
+        self.state.memory.iter().map(|a| a.verif_extent()).collect()
+    }
+
     /// Calls `f(start, access, data)` for every area without copying.
     pub fn verif_for_each_area<F: FnMut(u64, u32, &[u8])>(&self, mut f: F) {
         for a in &self.state.memory {
